@@ -164,7 +164,12 @@ ElemAttribute::startElement(StylesheetExecutionContext& executionContext) const
 
         XalanDOMString&     attrNameSpace = attrNameSpaceGuard.get();
 
-        if(0 != m_namespaceAVT)
+        // An attribute can only be added while the start tag of an element is still
+        // pending.  (The branch for attributes without a namespace tests this below;
+        // without the test here the attribute and its namespace declaration were left
+        // in the pending list and written with the next element.)
+        if(0 != m_namespaceAVT &&
+           executionContext.isElementPending() == true)
         {
             m_namespaceAVT->evaluate(attrNameSpace, *this, executionContext);
 
@@ -467,7 +472,12 @@ ElemAttribute::execute(StylesheetExecutionContext&  executionContext) const
 
         XalanDOMString&     attrNameSpace = attrNameSpaceGuard.get();
 
-        if(0 != m_namespaceAVT)
+        // An attribute can only be added while the start tag of an element is still
+        // pending.  (The branch for attributes without a namespace tests this below;
+        // without the test here the attribute and its namespace declaration were left
+        // in the pending list and written with the next element.)
+        if(0 != m_namespaceAVT &&
+           executionContext.isElementPending() == true)
         {
             m_namespaceAVT->evaluate(attrNameSpace, *this, executionContext);
 
